@@ -1,459 +1,761 @@
-"""C15 spin integration (structural clauses)."""
+"""C15 spin integration: the functions are evaluated on small models and compared with brute force."""
 from __future__ import annotations
 
-import ast
+import itertools
 
-from ..model import (AnalysisError, U, Defs, FuncNode, calls_in, call_name, walk_fn, kwarg, enclosing,
-                     enclosing_stmt, parents, names_in, short)
-from ..pathcond import conditions
-from . import common
+from ..model import AnalysisError
+from ..symex import Symex, Obj, Raised
+from ..terms import T, sym, show, t_pow, t_add, t_mul, expand_products, multiset, multiset_diff, summands, is_num
 
 EXPLANATION = (
-    "R15a: no in-place mutation of a value reached through a shallow copy (dict.copy()/dict(d)/"
-    "list.copy()) while the original stays live (package-wide). R15b: no fold that seeds its "
-    "accumulator from the first element under `if not acc` and later interprets emptiness, unless "
-    "the folded sequence is known non-empty (package-wide; triaged exceptions frozen with reasons). "
-    "R15c: Coulomb expansion <pq||rs> = (pr|qs) - (ps|qr): each Coulomb tensor is dominated by the "
-    "spin equalities of exactly its own charge distributions, signs +/-, bra-ket symmetry 1 "
-    "required, exponent kept. R15d: hard-coded spin-block tables (ERI, Coulomb, delta, operators, "
-    "t-amplitudes) agree with the spin-conservation oracle and with the guards of R15c. R15e: "
-    "restricted beta->alpha renaming refuses clashes, resets targets to alpha, keeps every term "
-    "once. R15f: in integrate_spin a term leaves the loop without contribution only under "
-    "term_vanishes, which is set only when an object has no admissible block or no consistent "
-    "combination exists; unassigned contracted indices get both spins; the spin is attached "
-    "without renaming. R15g: the backtracking search _has_valid_combination (behind the reported "
-    "allowed spin blocks) evaluated on 1728 three-tensor instances against brute force.")
+    "Every clause is decided by abstract evaluation (sa.symex) of the library function on a finite model and comparison "
+    "with an independently written oracle; nothing depends on local names or statement layout. The model: indices are "
+    "pairwise distinct records (name, spin); a term is a list of objects, each with its index tuple and its table of "
+    "allowed spin blocks (or None); get_symbols returns the record of (name, spin); `x.subs(m)` is recorded as the "
+    "mapping m; Expr(0, ..) is a zero accumulator whose assumptions/target indices are recorded. "
+    "R15f: integrate_spin on 4 model expressions (18 terms: ERI, deltas, t-amplitudes, an asymmetric block table, "
+    "unknown tensors, prefactors, pure numbers) for every target spin string: the returned sum contains, for every term, "
+    "exactly one substituted copy per spin assignment of ALL its indices that agrees with the target spins and gives "
+    "every object an allowed block (brute force over 2^n assignments) - none missing, none twice, nothing else; "
+    "accumulators start at 0 with the assumptions of the input and carry the target indices (same names, requested "
+    "spins) iff the input had target indices; non-Expr input, spin/target length mismatch, one target index with two "
+    "spins, foreign term targets and spatial-orbital input are refused. R15a: the term with two unassigned contracted "
+    "indices yields the 4 distinct variants (the variants do not share state). R15b: terms without any object of known "
+    "spin blocks are kept (the fold over objects has a neutral element). R15c: Obj.expand_antisym_eri for all 16+1 spin "
+    "patterns of <pq||rs>, exponents 1, 2, n, both return modes: [d(sp,sr)d(sq,ss)(pr|qs) - d(sp,ss)d(sq,sr)(ps|qr)]^exponent "
+    "with bra-ket symmetric Coulomb tensors of the configured name, sym_tensors extended iff a Coulomb tensor was "
+    "produced, non-ERI objects untouched, non-symmetric ERI refused; the expansion is non-zero exactly on the allowed ERI "
+    "blocks. R15d: Obj.allowed_spin_blocks / "
+    "NormalOrdered.allowed_spin_blocks evaluated for every object kind against the spin-conservation oracle (ERI, "
+    "Coulomb, delta, operators, t-amplitudes with 2/4/6 indices, registered and unregistered intermediates, "
+    "prefactors). R15e: transform_to_spatial_orbitals with integrate_spin replaced by a model of its result: arguments "
+    "forwarded, ERI expansion applied to the integrated expression iff requested and before it is read, unrestricted "
+    "result is the integrated expression itself, restricted result = every term once with exactly its beta indices "
+    "renamed to the alpha index of the same name, targets all-alpha, a clash with an existing alpha index refused. "
+    "R15g: _has_valid_combination on 1728 three-tensor instances against brute force (answer, and on success a "
+    "complete consistent assignment left in `variant`). R15h: allowed_spin_blocks(expr, target) on model expressions "
+    "(one term, several terms, chains of deltas, the two expressions that need real backtracking) against brute force over "
+    "all spin assignments; RegisteredIntermediate.allowed_spin_blocks = allowed_spin_blocks(definition on the default "
+    "indices, default indices).")
 ASSUMPTIONS = [
-    "completeness/duplicate-freeness of the enumeration of spin assignments in general is not decided",
+    "models are finite: at most 12 distinct indices per term, objects with up to 6 indices, single-letter index names",
+    "objects that carry the same index twice (e.g. <ij||ij>) are outside the model domain (integrate_spin refuses them, "
+    "see the report of the hardening run)",
+    "the former package-wide sweeps for shallow-copy aliasing (R15a) and unit-less folds (R15b) outside the spin "
+    "integration functions were pattern matches on source spelling and are no longer performed; inside integrate_spin, "
+    "allowed_spin_blocks and transform_to_spatial_orbitals their consequences are decided by evaluation",
+    "simplify, Expr.expand, order_substitutions and sympy's subs are taken to be value preserving (not decided here)",
+    "allowed_spin_blocks(expr, ..) is evaluated only for expressions in which every indexed object has known spin "
+    "blocks closed under the global spin flip (its documented domain)",
 ]
 
 SO = "spatial_orbitals:"
-MUTATORS = {"add", "append", "update", "extend", "remove", "discard", "pop", "clear", "insert",
-            "difference_update", "intersection_update", "symmetric_difference_update", "sort", "reverse",
-            "setdefault", "popitem"}
+EC = "expr_container:"
 
-# R15b triage: (function) -> reason why an empty folded sequence cannot occur / is handled
-FOLD_FROZEN = {
-    "simplify:find_compatible_terms.compare_terms": {
-        "ov_sub_list": "folded over idx_pattern.items(): a pattern entry exists only for spaces that hold an index",
-        "sub_list": "terms without indices carry an empty pattern; such terms differ only by a number and are "
-                    "merged by sympy's Add, so `no match` is the correct answer",
-    },
-    "factor_intermediates:_compare_eri_parts": {
-        "variants": "folded over the objects of an intermediate term's ERI part, which is never empty for a "
-                    "registered definition (R12a types every term); an empty part yields `no match` and the "
-                    "caller keeps the term unfactored (value preserved)",
-    },
-}
+ERI = ("aaaa", "abab", "abba", "baab", "baba", "bbbb")
+DELTA = ("aa", "bb")
 
 
-def shallow_copy_sites(fn):
-    """(copy statement, copy name, original text, mutation node)"""
+def t_blocks(n):
+    return tuple("".join(b) for b in itertools.product("ab", repeat=2 * n) if b[:n].count("a") == b[n:].count("a"))
+
+
+def KEY(o):
+    """canonical order of the model indices (model of sort_idx_canonical)"""
+    return (o.spin, o.name)
+
+
+# ---------------------------------------------------------------------------- the model
+
+
+class World:
+    """One evaluation: index records, accumulators created by Expr(..), recorded calls."""
+
+    def __init__(self):
+        self.I = {}
+        self.accs = {}
+        self.log = []
+
+    def idx(self, name, spin=""):
+        k = (name, spin)
+        if k not in self.I:
+            o = Obj(None, name + ("_" + spin if spin else ""))
+            o.attrs.update(name=name, spin=spin, space="occ" if name in "ijklmno" else "virt", _identity=True)
+            self.I[k] = o
+        return self.I[k]
+
+    def ix(self, names, spins=None):
+        return tuple(self.idx(n, s) for n, s in zip(names, spins or [""] * len(names)))
+
+    def term(self, name, objs, target=()):
+        """objs: [(label, index records, blocks | None)]"""
+        os_ = []
+        for lab, ix, blocks in objs:
+            o = Obj(None, f"{name}.{lab}")
+            o.attrs.update(idx=tuple(ix), allowed_spin_blocks=blocks)
+            os_.append(o)
+        allidx = tuple(i for _, ix, _ in objs for i in ix)
+        tg = tuple(sorted(set(target), key=KEY))
+        t = Obj(None, name)
+        t.attrs.update(objects=os_, idx=allidx, target=tg, sympy=Obj(None, name + ".sympy"),
+                       contracted=tuple(sorted((i for i in set(allidx) if i not in tg), key=KEY)))
+        return t
+
+    def expr(self, name, terms, assumptions, provided):
+        e = Obj(EC + "Expr", name)
+        e.attrs.update(terms=list(terms), assumptions=dict(assumptions), provided_target_idx=provided)
+        return e
+
+    # hooks: the vocabulary of the analysed functions
+    def hooks(self):
+        W = self
+
+        def split(s):
+            out = []
+            for ch in s:
+                if ch.isdigit() and out:
+                    out[-1] += ch
+                else:
+                    out.append(ch)
+            return out
+
+        def get_symbols(sx, a, kw):
+            ind = a[0] if a else kw.get("indices")
+            spins = a[1] if len(a) > 1 else kw.get("spins")
+            if isinstance(ind, T) or isinstance(spins, T):
+                return NotImplemented
+            if isinstance(ind, Obj):
+                return [ind]
+            if not ind:
+                return []
+            if all(isinstance(i, Obj) for i in ind):
+                return ind
+            names = split(ind) if isinstance(ind, str) else list(ind)
+            if spins is None:
+                spins = [""] * len(names)
+            if not all(isinstance(n, str) for n in names) or not isinstance(spins, (str, list, tuple)):
+                raise AnalysisError(f"R15: get_symbols({ind!r}, {spins!r}) outside the model")
+            if len(spins) != len(names):
+                raise Raised("Inputerror")      # as Indices.get_indices does
+            return [W.idx(n, s) for n, s in zip(names, spins)]
+
+        def expr_ctor(sx, a, kw):
+            o = Obj(None, f"Expr#{len(W.accs)}")
+            o.attrs.update(init=a[0] if a else kw.get("e"), kw={k: v for k, v in kw.items() if k != "e"}, target=None)
+            W.accs[o.name] = o
+            return o
+
+        def set_target_idx(sx, a, kw):
+            v = a[1] if len(a) > 1 else kw.get("target_idx")
+            a[0].attrs["target"] = None if v is None else tuple(v)
+            a[0].attrs["provided_target_idx"] = a[0].attrs["target"]
+            return None
+
+        def subs(sx, a, kw):
+            recv, m = a[0], a[1] if len(a) > 1 else None
+            if isinstance(recv, T) or isinstance(m, T) or m is None:
+                return NotImplemented
+            pairs = list(m.items()) if isinstance(m, dict) else [tuple(p) for p in m]
+            if not all(isinstance(k, Obj) and isinstance(v, Obj) for k, v in pairs):
+                return NotImplemented
+            d = {}
+            for k, v in pairs:
+                if d.setdefault(k.name, v.name) != v.name:
+                    return T("subs", recv.term, "ambiguous", tuple(sorted((k.name, v.name) for k, v in pairs)))
+            return T("subs", recv.term, frozenset(d.items()))
+
+        def ident(sx, a, kw):
+            return a[0]
+
+        def add(sx, a, kw):
+            return t_add(*[x.term if isinstance(x, Obj) else x for x in a])
+
+        def mul(sx, a, kw):
+            return t_mul(*[x.term if isinstance(x, Obj) else x for x in a])
+
+        def sort_key(sx, a, kw):
+            return KEY(a[0]) if isinstance(a[0], Obj) else NotImplemented
+
+        return {"get_symbols": get_symbols, "Expr": expr_ctor, "set_target_idx": set_target_idx, "subs": subs,
+                "order_substitutions": ident, "simplify": ident, "sort_idx_canonical": sort_key, "Add": add, "Mul": mul}
+
+
+def evaluate(ctx, ref, build, what, extra=None, max_paths=64):
+    """[(outcome, world)] of the function on the model arguments built by ``build(W)`` (rebuilt for every path)."""
+    worlds = []
+    sx = Symex(ctx.model, inline=lambda q: True, what=what, max_paths=max_paths,
+               attr_hook=lambda sx, obj, attr, node: False if attr == "is_number" else NotImplemented)
+
+    def make():
+        W = World()
+        worlds.append(W)
+        sx.hooks.clear()
+        sx.hooks.update(W.hooks())
+        if extra:
+            sx.hooks.update(extra(W))
+        return build(W)
+    outs = sx.run(ref, make)
+    if len(outs) != len(worlds):
+        raise AnalysisError(f"R15({what}): {len(worlds)} evaluations, {len(outs)} outcomes")
+    return list(zip(outs, worlds))
+
+
+def flat(v):
+    """summands of a returned sum; records become their symbol"""
+    if isinstance(v, Obj):
+        v = v.term
+    return [x for x in summands(v) if not (is_num(x) and x == 0)]
+
+
+def assignments(indices, objs, fixed):
+    """brute force: all maps index -> spin that agree with ``fixed`` and give every object an allowed block"""
+    names = sorted({i.name for i in indices})
     out = []
-    for n in walk_fn(fn, nested=True):
-        if not (isinstance(n, ast.Assign) and len(n.targets) == 1 and isinstance(n.targets[0], ast.Name)):
+    for sp in itertools.product("ab", repeat=len(names)):
+        s = dict(zip(names, sp))
+        if any(s[n] != v for n, v in fixed.items() if n in s):
             continue
-        v = n.value
-        orig = None
-        if isinstance(v, ast.Call) and isinstance(v.func, ast.Attribute) and v.func.attr == "copy" and not v.args:
-            orig = v.func.value
-        elif isinstance(v, ast.Call) and isinstance(v.func, ast.Name) and v.func.id in ("dict", "list") \
-                and len(v.args) == 1 and isinstance(v.args[0], ast.Name):
-            orig = v.args[0]
-        if orig is None:
-            continue
-        name = n.targets[0].id
-        scope = enclosing(n, FuncNode) or fn
-        for m in ast.walk(scope):
-            if getattr(m, "lineno", 0) < n.lineno:
-                continue
-            # copy[k].mutator(...)
-            if isinstance(m, ast.Call) and isinstance(m.func, ast.Attribute) and m.func.attr in MUTATORS \
-                    and isinstance(m.func.value, ast.Subscript) and U(m.func.value.value) == name:
-                out.append((n, name, U(orig), m))
-            # copy[k] |= ... / += ...
-            if isinstance(m, ast.AugAssign) and isinstance(m.target, ast.Subscript) and isinstance(m.target.value, ast.Subscript) \
-                    and U(m.target.value.value) == name:
-                out.append((n, name, U(orig), m))
-            if isinstance(m, ast.AugAssign) and isinstance(m.target, ast.Subscript) and U(m.target.value) == name \
-                    and isinstance(m.op, (ast.BitOr, ast.BitAnd, ast.Sub, ast.BitXor)):
-                out.append((n, name, U(orig), m))
+        if all(blocks is None or "".join(s[i.name] for i in ix) in blocks for _, ix, blocks in objs):
+            out.append(s)
     return out
 
 
-def r15a(ctx, modules=None):
-    rule = "R15a"
-    n_copy = 0
-    for ref, fn in ctx.model.all_functions():
-        if modules and ref.split(":")[0] not in modules:
+def sigma(s):
+    return " ".join(f"{n}:{v}" for n, v in sorted(s.items())) or "-"
+
+
+def subs_key(termname, s):
+    return T("subs", sym(termname + ".sympy"), frozenset((n, n + "_" + v) for n, v in s.items()))
+
+
+def check_accumulators(ctx, rule, fn, what, W, used, assumptions, target, key):
+    for nm in used:
+        acc = W.accs.get(nm)
+        if acc is None:
+            ctx.bad(rule, fn, f"{what}: summand {nm} is not an accumulator created by Expr(..)", key=f"{key} foreign {nm}")
             continue
-        if getattr(fn, "_fn", None) is not None:
-            continue  # nested functions are walked with their parent
-        copies = [c for c in calls_in(fn) if isinstance(c.func, ast.Attribute) and c.func.attr == "copy" and not c.args]
-        n_copy += len(copies)
-        for st, name, orig, mut in shallow_copy_sites(fn):
-            # a value stored under the key before the mutation makes it private
-            key = U(mut.func.value.slice) if isinstance(mut, ast.Call) else None
-            private = False
-            for m in ast.walk(enclosing(st, FuncNode) or fn):
-                if isinstance(m, ast.Assign) and isinstance(m.targets[0], ast.Subscript) \
-                        and U(m.targets[0].value) == name and st.lineno < m.lineno < mut.lineno:
-                    private = True
-            if private:
-                ctx.ok(rule, mut, "nested value replaced before mutation")
-                continue
-            ctx.bad(rule, mut, f"`{name}` is a shallow copy of `{orig}` (`{short(st, 60)}`); `{short(mut, 60)}` mutates a "
-                    f"nested value that is shared with `{orig}` and with every other copy", fn=ref,
-                    key=f"{name} <- {orig}")
-    if not modules:
-        ctx.floor(rule, ".copy() call sites examined package-wide", n_copy, 10)
-    ctx.ok(rule, None, f"{n_copy} copy sites examined", fn="package", key="copy sites")
-    # positive fixture: the detector must match the textbook pattern on every run
-    fix = ast.parse("def f(ms):\n    out = []\n    for m in ms:\n        c = m.copy()\n        c['a'].add(1)\n        out.append(c)\n    return out\n")
-    for x in ast.walk(fix):
-        for ch in ast.iter_child_nodes(x):
-            ch._parent = x
-    if len(shallow_copy_sites(fix.body[0])) != 1:
-        raise AnalysisError("R15a: positive fixture not matched")
+        init = acc.attrs["init"]
+        ctx.check(rule, fn, is_num(init) and init == 0 and acc.attrs["kw"] == assumptions,
+                  f"{what}: accumulator starts at 0 with the assumptions of the input",
+                  f"{what}: accumulator Expr({show(init)}, {acc.attrs['kw']}) instead of Expr(0, {assumptions})", key=f"{key} accumulator")
+        got = acc.attrs["target"]
+        ctx.check(rule, fn, (None if got is None else tuple(o.name for o in got)) == target,
+                  f"{what}: target indices of the result {target}",
+                  f"{what}: the result carries the target indices {None if got is None else [o.name for o in got]}, expected "
+                  f"{None if target is None else list(target)} (same names, requested spins, set iff the input had target indices)",
+                  key=f"{key} target")
 
 
-def fold_sites(fn):
-    """loops of the form  acc=[] ; for x in S: if not acc: <seed>; continue|else ... """
-    out = []
-    for lp in walk_fn(fn, nested=True):
-        if not isinstance(lp, ast.For):
-            continue
-        for s in lp.body:
-            if isinstance(s, ast.If) and isinstance(s.test, ast.UnaryOp) and isinstance(s.test.op, ast.Not) \
-                    and isinstance(s.test.operand, ast.Name):
-                acc = s.test.operand.id
-                seeds = [c for c in ast.walk(ast.Module(body=s.body, type_ignores=[]))
-                         if (isinstance(c, ast.Call) and call_name(c) in ("extend", "append") and U(c.func.value) == acc)
-                         or (isinstance(c, ast.Assign) and U(c.targets[0]) == acc)]
-                if not seeds:
-                    continue
-                # accumulator initialised empty before the loop
-                scope = enclosing(lp, FuncNode) or fn
-                init = [a for a in ast.walk(scope) if isinstance(a, (ast.Assign, ast.AnnAssign))
-                        and U(a.targets[0] if isinstance(a, ast.Assign) else a.target) == acc
-                        and a.value is not None and U(a.value) in ("[]", "list()") and a.lineno < lp.lineno]
-                if not init:
-                    continue
-                out.append((lp, acc, s))
-    return out
+# ---------------------------------------------------------------------------- R15f / R15a / R15b
 
 
-def r15b(ctx, modules=None):
-    rule = "R15b"
+def _families():
+    """name -> (target names, [(term, rule, [(label, index names, blocks)])])"""
+    X = None
+    return {
+        "A": ("ia", [
+            ("A1", "R15f", [("V", "ijab", ERI), ("f", "jk", X), ("Y", "kb", X)]),
+            ("A2", "R15b", [("f", "ij", X), ("Y", "ja", X)]),
+            ("A3", "R15f", [("d", "ij", DELTA), ("Y", "ja", X)]),
+            ("A4", "R15f", [("d", "ia", DELTA)]),
+            ("A5", "R15f", [("t2", "ijab", t_blocks(2)), ("V", "jkbc", ERI), ("Y", "kc", X)]),
+            ("A6", "R15f", [("c", "", X), ("X", "ia", X)]),
+            ("A7", "R15a", [("d", "bc", X), ("z", "cb", X), ("X", "ia", X)]),
+            ("A8", "R15f", [("I", "ij", ("ab",)), ("Y", "ja", X)]),
+            ("A9", "R15f", [("d", "ij", DELTA), ("d", "jk", DELTA), ("I", "ik", ("ab", "ba")), ("Y", "ka", X)]),
+        ]),
+        "B": ("", [
+            ("B1", "R15f", [("V", "ijab", ERI), ("V", "abij", ERI)]),
+            ("B2", "R15f", [("c", "", X)]),
+            ("B3", "R15f", [("d", "ij", DELTA), ("f", "ji", X)]),
+            ("B4", "R15b", [("f", "ij", X), ("g", "ji", X)]),
+        ]),
+        "C": ("ijkl", [
+            ("C1", "R15f", [("V", "ijab", ERI), ("V", "abkl", ERI)]),
+            ("C2", "R15f", [("d", "ik", DELTA), ("d", "jl", DELTA)]),
+            ("C3", "R15f", [("t2", "ijab", t_blocks(2)), ("t2", "klab", t_blocks(2))]),
+        ]),
+        "D": ("kc", [
+            ("D1", "R15a", [("d", "ab", X), ("z", "ba", X), ("t", "ck", t_blocks(1))]),
+            ("D2", "R15f", [("t3", "ijkabc", t_blocks(3)), ("V", "ijab", ERI)]),
+        ]),
+    }
+
+
+def _build_isr(W, fam, target, spins, provided):
+    terms = []
+    for name, rule, objs in fam:
+        terms.append(W.term(name, [(lab, W.ix(ix), bl) for lab, ix, bl in objs], W.ix(target)))
+    e = W.expr("expr", terms, {"real": True, "sym_tensors": ("x",)}, W.ix(sorted(set(target))) if provided else None)
+    return dict(expr=e, target_idx=target, target_spin=spins)
+
+
+def r15f(ctx):
+    fn = ctx.model.fn(SO + "integrate_spin")
     n = 0
-    for ref, fn in ctx.model.all_functions():
-        if modules and ref.split(":")[0] not in modules:
-            continue
-        if getattr(fn, "_fn", None) is not None and ref not in FOLD_FROZEN:
-            # nested functions are reported under their own qualified name
-            pass
-        for lp, acc, iff in fold_sites(fn):
-            owner = enclosing(lp, FuncNode)
-            oref = f"{ref.split(':')[0]}:{owner._qual}"
-            if oref != ref:
+    for fname, (target, fam) in _families().items():
+        all_spins = ["".join(s) for s in itertools.product("ab", repeat=len(target))]
+        for k, spins in enumerate(all_spins):
+            provided = (k % 2 == 0)
+            what = f"integrate_spin(family {fname}, targets {target or '-'} = {spins or '-'})"
+            res = evaluate(ctx, fn, lambda W: _build_isr(W, fam, target, spins, provided), what)
+            rets = [(o, W) for o, W in res if o.kind == "return"]
+            if len(res) != 1 or len(rets) != 1:
+                ctx.bad("R15f", fn, f"{what}: the model evaluation does not return on a single path: "
+                        f"{[repr(o)[:200] for o, _ in res][:3]}", key=f"{fname} {spins} outcome")
                 continue
-            n += 1
-            seq = U(lp.iter)
-            conds = conditions(lp)
-            nonempty = (seq, True) in conds or (f"len({seq}) > 0", True) in conds or (f"len({seq}) == 0", False) in conds
-            frozen = FOLD_FROZEN.get(ref, {}).get(acc)
-            if nonempty:
-                ctx.ok(rule, lp, f"fold over `{seq}` guarded non-empty", fn=ref, key=f"{acc} over {seq}")
-            elif frozen:
-                ctx.ok(rule, lp, f"fold `{acc}` over `{seq}`: triaged - {frozen}", fn=ref, key=f"{acc} over {seq}")
-            else:
-                ctx.bad(rule, lp, f"`{acc}` starts empty, is seeded from the first element of `{seq}` under `if not {acc}` "
-                        f"and its emptiness is interpreted afterwards; if `{seq}` is empty the neutral element of the "
-                        "fold is confused with `no valid combination` (the term is dropped)", fn=ref,
-                        key=f"{acc} over {seq}")
-    if not modules:
-        ctx.floor(rule, "fold sites examined package-wide", n, 3)
+            o, W = rets[0]
+            parts = flat(o.value)
+            fixed = dict(zip(target, spins))
+            left = list(parts)
+            for name, rule, objs in fam:
+                mobjs = [(lab, W.ix(ix), bl) for lab, ix, bl in objs]
+                indices = [i for _, ix, _ in mobjs for i in ix]
+                recv = sym(name + ".sympy")
+                mine = [p for p in left if isinstance(p, T) and p.op == "subs" and p.args[0] == recv or p == sym(name)]
+                left = [p for p in left if not any(p is q for q in mine)]
+                if not indices:
+                    want = [sym(name)]      # a pure number is kept as it is
+                else:
+                    want = [subs_key(name, s) for s in assignments(indices, mobjs, fixed)]
+                missing, surplus = multiset_diff(multiset(map(repr, mine)), multiset(map(repr, want)))
+                n += 1
+                why = ""
+                if missing or surplus:
+                    why = (f"{what}: term {name} = {' '.join(lab + '_' + ix for lab, ix, _ in objs)}: {len(want)} spin assignments "
+                           f"of its indices are consistent with the target spins and the allowed blocks; the result contains "
+                           f"{len(mine)} contributions; missing {len(missing)}: {missing[:2]}; surplus (wrong or repeated) "
+                           f"{len(surplus)}: {surplus[:2]}")
+                ctx.check(rule, fn, not why, f"{what}: term {name}: exactly the {len(want)} consistent spin assignments, each once",
+                          why, key=f"{fname} {spins} {name}")
+            accs = [p.args[0] for p in left if isinstance(p, T) and p.op == "sym" and str(p.args[0]).startswith("Expr#")]
+            other = [p for p in left if not (isinstance(p, T) and p.op == "sym" and str(p.args[0]).startswith("Expr#"))]
+            ctx.check("R15f", fn, not other, f"{what}: nothing but the spin variants of the terms",
+                      f"{what}: the result contains summands that are no spin variant of an input term: {[show(x)[:120] for x in other[:3]]}",
+                      key=f"{fname} {spins} foreign")
+            ctx.check("R15f", fn, len(accs) >= 1, f"{what}: result is an Expr", f"{what}: no Expr accumulator in the result",
+                      key=f"{fname} {spins} result")
+            want_t = tuple(nm + "_" + s for nm, s in zip(target, spins)) if provided else None
+            check_accumulators(ctx, "R15f", fn, what, W, accs, {"real": True, "sym_tensors": ("x",)}, want_t, f"{fname} {spins}")
+    ctx.floor("R15f", "terms of the integrate_spin model evaluated", n, 90)
+    # informational (outside the decided domain): an object that carries an index twice
+    res = evaluate(ctx, fn, lambda W: dict(expr=W.expr("expr", [W.term("P", [("V", W.ix("ijij"), ERI)], ())], {"real": True}, None),
+                                           target_idx="", target_spin=""), "integrate_spin(<ij||ij>)")
+    if any(o.kind == "raise" for o, _ in res):
+        ctx.note("integrate_spin refuses an object that carries an index twice (model <ij||ij>: the ERI blocks abba/baab assign both "
+                 f"spins to one index and raise {res[0][0].exc} instead of being skipped); not decided here, reported separately")
+    # input guards
+    fam = _families()["A"][1][:3]
+
+    def guard(key, fact, reason, mutate, exc=None):
+        def build(W):
+            a = _build_isr(W, fam, "ia", "ab", True)
+            mutate(W, a)
+            return a
+        res = evaluate(ctx, fn, build, f"integrate_spin guard {key}")
+        ok = bool(res) and all(o.kind == "raise" and (exc is None or o.exc in exc) for o, _ in res)
+        ctx.check("R15f", fn, ok, fact, f"{reason}: {[repr(o)[:160] for o, _ in res][:2]}", key=f"guard {key}")
+
+    guard("expr type", "input that is no Expr refused", "integrate_spin accepts an input that is not an Expr",
+          lambda W, a: a.update(expr="V"))
+    guard("length", "target spins and indices of different length refused", "integrate_spin accepts 2 target indices with 3 spins",
+          lambda W, a: a.update(target_spin="abb"))
+    guard("two spins", "one target index with two spins refused", "integrate_spin accepts the target index i with alpha and beta spin",
+          lambda W, a: (a.update(target_idx="iia", target_spin="aba"),
+                        [t.attrs.update(target=tuple(sorted(W.ix("ia"), key=KEY))) for t in a["expr"].terms]))
+    guard("term target", "terms with other target indices refused", "integrate_spin accepts a term whose target indices differ from the requested ones",
+          lambda W, a: a["expr"].terms[1].attrs.update(target=tuple(sorted(W.ix("ja"), key=KEY))))
+
+    def spatial(W, a):
+        t = a["expr"].terms[1]
+        ja = W.idx("j", "a")
+        t.attrs.update(idx=tuple(ja if i is W.idx("j") else i for i in t.attrs["idx"]))
+        for ob in t.attrs["objects"]:
+            ob.attrs.update(idx=tuple(ja if i is W.idx("j") else i for i in ob.attrs["idx"]))
+    guard("spatial input", "input that already carries spins refused",
+          "integrate_spin accepts a term in which an index already has a spin", spatial)
 
 
-# ---------------------------------------------------------------------- R15c/d
+# ---------------------------------------------------------------------------- R15e
 
 
-def r15c(ctx):
-    rule = "R15c"
-    fn = ctx.model.fn("expr_container:Obj.expand_antisym_eri")
-    unp = [n for n in walk_fn(fn) if isinstance(n, ast.Assign) and isinstance(n.targets[0], ast.Tuple)
-           and U(n.value).endswith(".idx") and len(n.targets[0].elts) == 4]
-    if len(unp) != 1:
-        raise AnalysisError("expand_antisym_eri: `p, q, r, s = <eri>.idx` not found")
-    n0, n1, n2, n3 = (U(e) for e in unp[0].targets[0].elts)
-    sites = [c for c in calls_in(fn) if call_name(c) == "SymmetricTensor"]
-    ctx.floor(rule, "Coulomb tensors in expand_antisym_eri", len(sites), 2)
-    want = {((n0, n2), (n1, n3)): ast.Add, ((n0, n3), (n1, n2)): ast.Sub}
-    seen = set()
-    for c in sites:
-        if len(c.args) < 3 or not all(isinstance(a, ast.Tuple) and len(a.elts) == 2 for a in c.args[1:3]):
-            ctx.bad(rule, c, "Coulomb tensor not built from two index pairs", key="coulomb shape")
-            continue
-        pairs = tuple(tuple(U(e) for e in a.elts) for a in c.args[1:3])
-        norm = tuple(sorted(tuple(sorted(p)) for p in pairs))
-        key = next((k for k in want if tuple(sorted(tuple(sorted(p)) for p in k)) == norm), None)
-        ctx.check(rule, c, key is not None, f"charge distributions {pairs} are one of (pr|qs), (ps|qr)",
-                  f"Coulomb integral built from pairs {pairs}; <pq||rs> expands to (pr|qs) - (ps|qr) only",
-                  key=f"pairs {pairs}")
-        if key is None:
-            continue
-        seen.add(key)
-        st = enclosing_stmt(c)
-        ctx.check(rule, c, isinstance(st, ast.AugAssign) and isinstance(st.op, want[key]) and st.value is c,
-                  f"{pairs}: sign {'+' if want[key] is ast.Add else '-'}",
-                  f"Coulomb term {pairs} enters with the wrong sign or prefactor (`{short(st, 60)}`)", key=f"sign {pairs}")
-        conds = conditions(c)
-        need = set()
-        for a, b in pairs:
-            need.add(frozenset((f"{a}.spin", f"{b}.spin")))
-        got = set()
-        for t, pol in conds:
-            if pol and " == " in t and ".spin" in t:
-                got.add(frozenset(t.split(" == ")))
-        ctx.check(rule, c, got == need, f"{pairs}: guarded by equal spins within each charge distribution",
-                  f"Coulomb term {pairs} is guarded by {sorted(map(sorted, got))}, required "
-                  f"{sorted(map(sorted, need))}", key=f"guard {pairs}")
-        ctx.check(rule, c, U(c.args[0]) == "tensor_names.coulomb" and len(c.args) == 4 and U(c.args[3]) == "1",
-                  "configured Coulomb name, bra-ket symmetric", "Coulomb tensor name or bra-ket symmetry changed",
-                  key=f"name {pairs}")
-    ctx.check(rule, fn, seen == set(want), "both charge distributions present", "a Coulomb term is missing", key="both terms")
-    r = [n for n in walk_fn(fn) if isinstance(n, ast.Raise)]
-    ok = any(("self.bra_ket_sym != 1", True) in conditions(x) or ("self.bra_ket_sym == 1", False) in conditions(x) for x in r)
-    ctx.check(rule, fn, ok, "only bra-ket symmetric ERI are expanded", "expansion of non-symmetric ERI is not refused", key="real only")
-    g = [n for n in walk_fn(fn) if isinstance(n, ast.If) and U(n.test) == "self.name == tensor_names.eri"]
-    ctx.check(rule, fn, len(g) == 1, "only the antisymmetric ERI is expanded", "ERI name test changed", key="eri only")
-    from .skeleton import obj_level
-    obj_level(ctx, rule, "expand_antisym_eri")
-
-
-def r15d(ctx):
-    rule = "R15d"
-    import itertools
-    fn = ctx.model.fn("expr_container:Obj.allowed_spin_blocks")
-    blocks = {}
-    for r in common.returns_of(fn):
-        if not isinstance(r.value, ast.Tuple) or not all(isinstance(e, ast.Constant) for e in r.value.elts):
-            continue
-        conds = conditions(r)
-        val = tuple(e.value for e in r.value.elts)
-        for t, pol in conds:
-            if pol and t.startswith("name == tensor_names."):
-                blocks[t.split("tensor_names.")[1]] = val
-            if pol and t == "isinstance(obj, KroneckerDelta)":
-                blocks["delta"] = val
-            if pol and t == "isinstance(obj, FermionicOperator)":
-                blocks["operator"] = val
-    all4 = ["".join(b) for b in itertools.product("ab", repeat=4)]
-    eri = sorted(b for b in all4 if (b[0] == b[2] and b[1] == b[3]) or (b[0] == b[3] and b[1] == b[2]))
-    coul = sorted(b for b in all4 if b[0] == b[1] and b[2] == b[3])
-    want = {"eri": eri, "coulomb": coul, "delta": ["aa", "bb"], "operator": ["a", "b"]}
-    for k, w in want.items():
-        got = sorted(blocks.get(k, ()))
-        ctx.check(rule, fn, got == w, f"{k}: blocks {w}", f"allowed spin blocks of {k} are {got}; spin conservation gives {w}",
-                  key=f"blocks {k}")
-        ctx.check(rule, fn, len(blocks.get(k, ())) == len(set(blocks.get(k, ()))), f"{k}: no duplicate block",
-                  f"{k}: duplicate spin block listed (double counting)", key=f"dups {k}")
-    # t-amplitudes: same number of alpha in both halves
-    comp = [n for n in walk_fn(fn) if isinstance(n, ast.ListComp) and "product('ab'" in U(n)]
-    ok = False
-    if len(comp) == 1:
-        g = comp[0].generators[0]
-        b = U(g.target)
-        ok = U(g.iter).replace(" ", "") == "product('ab',repeat=len(idx))" and len(g.ifs) == 1 \
-            and U(g.ifs[0]).replace(" ", "") in (f"{b}[:n].count('a')=={b}[n:].count('a')", f"{b}[:n].count('b')=={b}[n:].count('b')") \
-            and U(comp[0].elt) == f"''.join({b})"
-        nn = [a for a in common.assigns_to(fn, "n")]
-        ok = ok and len(nn) == 1 and U(nn[0].value).replace(" ", "") == "len(idx)//2" \
-            and ("is_t_amplitude(name)", True) in conditions(comp[0])
-    ctx.check(rule, fn, ok, "t-amplitudes: blocks conserving the number of alpha between the halves",
-              "t-amplitude spin blocks are not `#alpha(first half) == #alpha(second half)` over all 2^(2n) strings",
-              key="blocks t")
-    # fall back to the registered intermediate
-    rets = [r for r in common.returns_of(fn) if U(r.value) == "itmd.allowed_spin_blocks"]
-    ctx.check(rule, fn, len(rets) == 1, "other tensors: blocks of the registered intermediate", "intermediate fallback changed",
-              key="blocks itmd")
-    no = ctx.model.fn("expr_container:NormalOrdered.allowed_spin_blocks")
-    r = common.returns_of(no)
-    ctx.check(rule, no, len(r) == 1 and U(r[0].value) == "tuple((''.join(b) for b in product(*allowed_blocks)))",
-              "NO: product of the operator blocks", "NormalOrdered spin blocks changed", key="blocks NO")
-
-
-# ---------------------------------------------------------------------- R15e/f
+def _integrated(W, clash=False):
+    """model of the result of integrate_spin for targets i a / spins a b"""
+    ia, ja, jb, kb, ab, ba, bb, ca = (W.idx(n, s) for n, s in ("ia", "ja", "jb", "kb", "ab", "ba", "bb", "ca"))
+    terms = [
+        W.term("T1", [("X", (ia, ab), None), ("V", (ia, ja, ba, ca), ERI), ("Y", (ja, ba, ca), None)], (ia, ab)),
+        W.term("T2", [("V", (ia, jb, ca, bb), ERI), ("Y", (jb, ca, bb, ab), None)], (ia, ab)),
+        W.term("T3", [("c", (), None)], ()),
+        W.term("T4", [("X", (ia, ab), None), ("d", (jb, kb), DELTA)], (ia, ab)),
+    ]
+    if clash:
+        terms.append(W.term("T5", [("f", (ja, jb), None), ("X", (ia, ab), None)], (ia, ab)))
+    e = W.expr("integrated", terms, {"real": True, "sym_tensors": ("x",)}, (ia, ab))
+    return e
 
 
 def r15e(ctx):
     rule = "R15e"
     fn = ctx.model.fn(SO + "transform_to_spatial_orbitals")
-    loops = [n for n in walk_fn(fn) if isinstance(n, ast.For) and U(n.iter) == "expr.terms"]
-    ctx.floor(rule, "term loop in transform_to_spatial_orbitals", len(loops), 1)
-    lp = loops[0]
-    t = U(lp.target)
-    acc, drops = common.loop_conservation(ctx, rule, fn, lp, t)
-    common.lost(ctx, rule, lp, t, drops)
-    ra = [n for n in walk_fn(lp) if isinstance(n, ast.Raise)]
-    sub = [n for n in walk_fn(lp) if isinstance(n, ast.Assign) and isinstance(n.targets[0], ast.Subscript)
-           and U(n.targets[0].value) == "sub"]
-    ok = False
-    if ra and sub:
-        conds = conditions(ra[0])
-        new = U(sub[0].value)
-        ok = any(pol and t2.startswith(f"{new} in ") for t2, pol in conds) and ra[0].lineno < sub[0].lineno \
-            and enclosing(ra[0], ast.For) is enclosing(sub[0], ast.For)
-    ctx.check(rule, lp, ok, "alpha index of the same name already in the term => refused",
-              "beta->alpha renaming no longer refuses a clash with an existing alpha index", key="clash guard")
-    b = [a for a in common.assigns_to(fn, "beta_idx")]
-    ok = len(b) == 1 and isinstance(b[0].value, ast.ListComp) and [U(i) for i in b[0].value.generators[0].ifs] == \
-        [f"{U(b[0].value.generators[0].target)}.spin == 'b'"]
-    ctx.check(rule, fn, ok, "exactly the beta indices are renamed", "selection of beta indices changed", key="beta selection")
-    nw = [a for a in common.assigns_to(fn, "new_idx")]
-    ok = len(nw) == 1 and U(nw[0].value).replace(" ", "") == "get_symbols([i.nameforiinbeta_idx],'a'*len(beta_idx))"
-    ctx.check(rule, fn, ok, "same names with alpha spin", "replacement indices are not the same names with alpha spin", key="alpha names")
-    rt = [a for a in common.assigns_to(fn, "restricted_target")]
-    ok = len(rt) == 1 and U(rt[0].value).replace(" ", "") == "get_symbols(target_idx,'a'*len(target_spin))"
-    ctx.check(rule, fn, ok, "targets reset to all-alpha", "restricted target indices changed", key="restricted target")
-    # order of the pipeline
-    calls = [(c.lineno, call_name(c)) for c in calls_in(fn) if call_name(c) in ("integrate_spin", "expand_antisym_eri")]
-    ctx.check(rule, fn, [n for _, n in sorted(calls)] == ["integrate_spin", "expand_antisym_eri"],
-              "integrate first (intermediates are defined with antisymmetric ERI), then expand", "pipeline order changed",
-              key="pipeline")
-    isp = [c for c in calls_in(fn) if call_name(c) == "integrate_spin"]
-    ok = len(isp) == 1 and [U(a) for a in isp[0].args] == ["expr", "target_idx", "target_spin"]
-    ctx.check(rule, fn, ok, "targets and spins forwarded", "integrate_spin arguments changed", key="forward")
-    ee = [c for c in calls_in(fn) if call_name(c) == "expand_antisym_eri"]
-    ctx.check(rule, fn, len(ee) == 1 and ("expand_eri", True) in conditions(ee[0]), "ERI expansion only on request",
-              "ERI expansion not guarded by expand_eri", key="expand flag")
+    n = 0
+    for restricted, expand, provided, clash in itertools.product((False, True), (False, True), (True, False), (False, True)):
+        if clash and not restricted:
+            continue
+        what = f"transform_to_spatial_orbitals(restricted={restricted}, expand_eri={expand}{', clash' if clash else ''})"
+
+        def extra(W):
+            def integrate_spin(sx, a, kw):
+                W.log.append(("integrate_spin", tuple(a), dict(kw)))
+                W.ie = _integrated(W, clash)
+                if not provided:
+                    W.ie.attrs["provided_target_idx"] = None
+                return W.ie
+
+            def expand_antisym_eri(sx, a, kw):
+                W.log.append(("expand_antisym_eri", a[0]))
+                if a[0] is getattr(W, "ie", None):
+                    # in place: the terms and the assumptions of the expression change
+                    a[0].attrs["terms"] = [W.term(t.name + "x", [(str(i), ob.attrs["idx"], ob.attrs["allowed_spin_blocks"])
+                                                                 for i, ob in enumerate(t.attrs["objects"])], t.attrs["target"])
+                                           for t in a[0].attrs["terms"]]
+                    a[0].attrs["assumptions"] = {"real": True, "sym_tensors": ("x", "v")}
+                return a[0]
+
+            def expand(sx, a, kw):
+                W.log.append(("expand", a[0]))
+                return a[0]
+            return {"integrate_spin": integrate_spin, "expand_antisym_eri": expand_antisym_eri, "expand": expand}
+
+        def build(W):
+            W.input = W.expr("expr", [], {"real": True}, None)
+            return dict(expr=W.input, target_idx="ia", target_spin="ab", restricted=restricted, expand_eri=expand)
+        res = evaluate(ctx, fn, build, what, extra)
+        n += 1
+        if clash:
+            ctx.check(rule, fn, bool(res) and all(o.kind == "raise" for o, _ in res),
+                      "beta index whose alpha partner is already in the term => refused",
+                      f"{what}: a term holds j(alpha) and j(beta); renaming j(beta) -> j(alpha) merges two different indices but is "
+                      f"not refused: {[repr(o)[:160] for o, _ in res][:2]}", key=f"clash guard {expand}")
+            continue
+        if len(res) != 1 or res[0][0].kind != "return":
+            ctx.bad(rule, fn, f"{what}: no single returning path: {[repr(o)[:200] for o, _ in res][:3]}", key=f"outcome {restricted} {expand}")
+            continue
+        o, W = res[0]
+        calls = [c for c in W.log if c[0] == "integrate_spin"]
+        ok = len(calls) == 1
+        if ok:
+            a, kw = calls[0][1], calls[0][2]
+            b = {**dict(zip(("expr", "target_idx", "target_spin"), a)), **kw}
+            ok = b.get("expr") is W.input and b.get("target_idx") == "ia" and b.get("target_spin") == "ab" and len(b) == 3
+        ctx.check(rule, fn, ok, "expression, targets and spins forwarded to integrate_spin once",
+                  f"{what}: integrate_spin called {len(calls)} time(s) with {[(c[1], c[2]) for c in calls][:1]}", key=f"forward {restricted} {expand}")
+        if not ok:
+            continue
+        exp = [c for c in W.log if c[0] == "expand_antisym_eri"]
+        ok = ctx.check(rule, fn, [c[1] for c in exp] == ([W.ie] if expand else []),
+                  "antisymmetric ERI of the integrated expression expanded iff requested",
+                  f"{what}: expand_antisym_eri applied {len(exp)} time(s) to {[getattr(c[1], 'name', c[1]) for c in exp]}; expected "
+                  f"{'once to the integrated expression' if expand else 'not at all'}", key=f"expand flag {restricted} {expand}")
+        if not ok:
+            continue
+        if not restricted:
+            ctx.check(rule, fn, o.value is W.ie, "unrestricted: the integrated expression is returned",
+                      f"{what}: returns {show(o.value)[:200]} instead of the integrated expression", key=f"unrestricted {expand} {provided}")
+            continue
+        terms = W.ie.attrs["terms"]
+        sfx = "x" if expand else ""
+        if [t.name for t in terms] != [f"T{k}{sfx}" for k in (1, 2, 3, 4)]:
+            raise AnalysisError(f"R15e: model terms {[t.name for t in terms]}")
+        want = []
+        for t in terms:
+            beta = {i.name: i.name[:-1] + "a" for i in t.attrs["idx"] if i.attrs["spin"] == "b"}
+            want.append(T("subs", sym(t.name + ".sympy"), frozenset(beta.items())) if beta else sym(t.name + ".sympy"))
+        parts = flat(o.value)
+        accs = [p.args[0] for p in parts if isinstance(p, T) and p.op == "sym" and str(p.args[0]).startswith("Expr#")]
+        got = [p for p in parts if not (isinstance(p, T) and p.op == "sym" and str(p.args[0]).startswith("Expr#"))]
+        missing, surplus = multiset_diff(multiset(map(repr, got)), multiset(map(repr, want)))
+        ctx.check(rule, fn, not missing and not surplus,
+                  "restricted: every term once, exactly its beta indices renamed to the alpha index of the same name",
+                  f"{what}: expected the {len(want)} terms of the {'expanded ' if expand else ''}integrated expression with beta -> alpha; "
+                  f"missing {missing[:2]}; surplus {surplus[:2]}", key=f"restricted terms {expand} {provided}")
+        ctx.check(rule, fn, len(accs) >= 1, "restricted: result is an Expr", f"{what}: no Expr accumulator in the result",
+                  key=f"restricted result {expand} {provided}")
+        check_accumulators(ctx, rule, fn, what, W, accs, W.ie.attrs["assumptions"], ("i_a", "a_a") if provided else None,
+                           f"restricted {expand} {provided}")
+    ctx.floor(rule, "scenarios of transform_to_spatial_orbitals", n, 12)
 
 
-def r15f(ctx):
-    rule = "R15f"
-    fn = ctx.model.fn(SO + "integrate_spin")
-    loops = [n for n in walk_fn(fn) if isinstance(n, ast.For) and U(n.iter) == "expr.terms"]
-    ctx.floor(rule, "term loop in integrate_spin", len(loops), 1)
-    lp = loops[0]
-    t = U(lp.target)
+# ---------------------------------------------------------------------------- R15c
 
-    def is_event(n):
-        return isinstance(n, ast.AugAssign) and U(n.target) == "result" and isinstance(n.op, ast.Add)
-    acc, drops = common.loop_conservation(ctx, rule, fn, lp, t, is_event=is_event)
-    for p in drops:
-        last = p.decisions[-1] if p.decisions else None
-        ok = last is not None and U(last[0]) == "term_vanishes" and last[1]
-        ctx.check(rule, p.exit_node or lp, ok, "term dropped only when it vanishes",
-                  f"a term leaves the loop without contribution on path [{common.path_desc(p)}]", key="drop path")
-    sets = [a for a in walk_fn(lp) if isinstance(a, ast.Assign) and U(a.targets[0]) == "term_vanishes" and U(a.value) == "True"]
-    ctx.floor(rule, "term_vanishes assignments", len(sets), 1)
-    for a in sets:
-        conds = conditions(a)
-        ok = ("obj_spin_idx_maps", False) in conds or ("combinations", False) in conds
-        ctx.check(rule, a, ok, "vanishing only if no admissible block / no consistent combination",
-                  "term_vanishes set under another condition", key="vanish condition")
-    ti = [a for a in walk_fn(lp) if isinstance(a, ast.Assign) and U(a.targets[0]) == "term_indices"]
-    ctx.check(rule, lp, len(ti) == 1 and U(ti[0].value) == "set(term.idx)", "indices of the term without repetition",
-              f"term_indices is `{U(ti[0].value) if ti else None}`: Term.idx lists an index once per occurrence, so unassigned "
-              "contracted indices are enumerated several times and spin variants are duplicated", key="term indices set")
-    # block filtering against the target spins
-    val = [a for a in walk_fn(lp) if isinstance(a, ast.Assign) and U(a.targets[0]) == "valid" and U(a.value) == "False"]
-    ok = len(val) == 1 and {(t2, pol) for t2, pol in conditions(val[0])} >= {
-        ("idx in target_idx_spin_map", True), ("spin == target_idx_spin_map[idx]", False)}
-    ctx.check(rule, lp, ok, "a block is discarded iff it contradicts a target spin",
-              "block filter against the requested target spins changed", key="block filter")
-    # combination: contradiction test and union
-    cont = [n for n in walk_fn(lp) if isinstance(n, ast.Continue) and isinstance(n._parent, ast.If)
-            and "addition" in U(n._parent.test)]
-    ok = len(cont) >= 1 and U(cont[0]._parent.test).replace(" ", "") in (
-        "idx_map['a']&addition['b']oridx_map['b']&addition['a']", "idx_map['b']&addition['a']oridx_map['a']&addition['b']")
-    ctx.check(rule, lp, ok, "combination rejected iff an index would get both spins", "contradiction test changed", key="contradiction")
-    cm = [a for a in walk_fn(lp) if isinstance(a, ast.Assign) and U(a.targets[0]) == "combined_map"]
-    ok = len(cm) == 1 and U(cm[0].value).replace(" ", "") == "{'a':idx_map['a']|addition['a'],'b':idx_map['b']|addition['b']}"
-    ctx.check(rule, lp, ok, "combined map = union per spin", "combined map changed", key="union")
-    # unassigned indices
-    mi = [a for a in walk_fn(lp) if isinstance(a, ast.Assign) and U(a.targets[0]) == "missing_indices"]
-    ok = len(mi) == 1 and U(mi[0].value).replace(" ", "") == "[idxforidxinterm_indicesifidxnotinassigned_indices]"
-    ctx.check(rule, lp, ok, "every index without a spin is completed", "detection of unassigned indices changed", key="missing")
-    pr = [c for c in calls_in(lp) if call_name(c) == "product" and "'ab'" in U(c)]
-    ok = any(U(c).replace(" ", "") == "product('ab',repeat=len(missing_contracted))" for c in pr)
-    ctx.check(rule, lp, ok, "unassigned contracted indices: both spins, all combinations",
-              "contracted indices without spin no longer get all 2^n assignments", key="both spins")
-    tg = [c for c in calls_in(lp) if call_name(c) == "add" and "target_idx_spin_map[idx]" in U(c.func.value)]
-    ctx.check(rule, lp, len(tg) == 1, "unassigned target index: requested spin", "unassigned target indices changed", key="target spin")
-    # spin attached without renaming
-    for name, want in (("names", "''.join((s.name for s in old))"), ("spins", "''.join((spin for _ in range(len(old))))")):
-        a = [x for x in walk_fn(lp) if isinstance(x, ast.Assign) and U(x.targets[0]) == name]
-        ctx.check(rule, lp, len(a) == 1 and U(a[0].value) == want, f"{name}: same names, the variant's spin",
-                  f"`{name}` is `{U(a[0].value) if a else None}`", key=f"attach {name}")
-    cb = [n for n in walk_fn(lp) if isinstance(n, ast.AugAssign) and U(n.target) == "contribution"]
-    ok = len(cb) == 1 and U(cb[0].value) == "term.sympy.subs(order_substitutions(sub))" and isinstance(cb[0].op, ast.Add)
-    ctx.check(rule, lp, ok, "each spin variant contributes the substituted term once", "contribution accumulation changed", key="contribution")
-    # the result target indices carry the requested spins
-    rt = [a for a in common.assigns_to(fn, "result_target")]
-    ok = len(rt) == 1 and U(rt[0].value).replace(" ", "") == "get_symbols([s.nameforsintarget_idx],target_spin)"
-    ctx.check(rule, fn, ok, "result targets: same names with the requested spins", "result target indices changed", key="result target")
-    sm = [a for a in walk_fn(fn) if isinstance(a, ast.Assign) and U(a.targets[0]) == "target_idx_spin_map[idx]"]
-    ok = len(sm) == 1 and U(sm[0].value) == "spin" and U(enclosing(sm[0], ast.For).iter) == "zip(target_idx, target_spin)"
-    ctx.check(rule, fn, ok, "target index -> requested spin by position", "target spin map changed", key="spin map")
+
+def _tensor_hooks(W):
+    def tensor(cls):
+        def h(sx, a, kw):
+            b = {**dict(zip(("name", "upper", "lower", "bra_ket_sym"), a)), **kw}
+            up, lo = b.get("upper"), b.get("lower")
+            if not isinstance(up, (tuple, list)) or not isinstance(lo, (tuple, list)):
+                return NotImplemented
+            up, lo = frozenset(i.name for i in up), frozenset(i.name for i in lo)
+            s = b.get("bra_ket_sym", 0)
+            return T("tensor", cls, b.get("name"), frozenset((up, lo)) if s == 1 else (up, lo), s, len(b["upper"]), len(b["lower"]))
+        return h
+
+    def power(sx, a, kw):
+        b, e = a
+        return t_pow(b.term if isinstance(b, Obj) else b, e)
+    names = Obj(None, "tensor_names")
+    names.attrs.update(eri="V", coulomb="v", gs_amplitude="t", fock="f", sym_orb_denom="D", orb_energy="e", gs_density="p")
+    S = Obj(None, "S")
+    S.attrs.update(Zero=0, One=1, NegativeOne=-1)
+    return {"SymmetricTensor": tensor("SymmetricTensor"), "AntiSymmetricTensor": tensor("AntiSymmetricTensor"), "Pow": power,
+            "tensor_names": names, "S": S}
+
+
+def _coulomb(x, y):
+    return T("tensor", "SymmetricTensor", "v", frozenset((frozenset(i.name for i in x), frozenset(i.name for i in y))), 1, 2, 2)
+
+
+def _poly(t):
+    """normal form of base**exponent results: (sorted products of the base, exponent)"""
+    e = 1
+    if isinstance(t, T) and t.op == "pow":
+        t, e = t.args
+    prods = sorted((c, tuple(sorted(map(repr, fs)))) for c, fs in expand_products(t))
+    if not prods:
+        return ((), 1) if e != 0 else t
+    return (tuple(prods), e)
+
+
+def r15c(ctx):
+    rule = "R15c"
+    fn = ctx.model.fn(EC + "Obj.expand_antisym_eri")
+    n = 0
+    nonzero = set()
+    patterns = ["".join(s) for s in itertools.product("ab", repeat=4)] + [""]
+    for spins, exponent, ret in itertools.product(patterns, (1, 2, sym("n")), (True, False)):
+        what = f"<pq||rs> spins {spins or 'none'}, exponent {show(exponent)}, return_sympy={ret}"
+
+        def build(W, name="V", bks=1):
+            p, q, r, s = W.ix("pqrs", spins or None)
+            base = Obj(None, "base")
+            base.attrs.update(name=name, idx=(p, q, r, s), upper=(p, q), lower=(r, s), bra_ket_sym=bks,
+                              _classes=("AntiSymmetricTensor", "SymbolicTensor"))
+            me = Obj(EC + "Obj", "self")
+            me.attrs.update(name=name, idx=(p, q, r, s), bra_ket_sym=bks, exponent=exponent, base=base,
+                            base_and_exponent=(base, exponent), sympy=t_pow(base.term, exponent),
+                            assumptions={"real": True, "sym_tensors": ("x",), "antisym_tensors": ()})
+            W.me = me
+            return dict(self=me, return_sympy=ret)
+        res = evaluate(ctx, fn, build, "expand_antisym_eri", _tensor_hooks)
+        if len(res) != 1 or res[0][0].kind != "return":
+            ctx.bad(rule, fn, f"{what}: no single returning path: {[repr(o)[:200] for o, _ in res][:3]}", key=f"outcome {spins} {show(exponent)} {ret}")
+            continue
+        o, W = res[0]
+        p, q, r, s = W.ix("pqrs", spins or None)
+        sp = spins or "    "
+        want = []
+        if sp[0] == sp[2] and sp[1] == sp[3]:
+            want.append((1, (repr(_coulomb((p, r), (q, s))),)))
+        if sp[0] == sp[3] and sp[1] == sp[2]:
+            want.append((-1, (repr(_coulomb((p, s), (q, r))),)))
+        want_nf = (tuple(sorted(want)), exponent) if want else ((), 1)
+        v = o.value
+        acc = None
+        if not ret:
+            acc = v if isinstance(v, Obj) and v.name in W.accs else None
+            v = acc.attrs["init"] if acc is not None else None
+        got_nf = _poly(v) if v is not None else None
+        n += 1
+        if got_nf == want_nf:
+            ctx.ok(rule, fn, f"{what}: [d(sp,sr)d(sq,ss)(pr|qs) - d(sp,ss)d(sq,sr)(ps|qr)]^exponent", key=f"value {spins} {show(exponent)} {ret}")
+        else:
+            gb, ge = got_nf if isinstance(got_nf, tuple) else ((), None)
+            if gb == want_nf[0]:
+                why = f"the expansion is raised to the exponent {show(ge)} instead of {show(want_nf[1])} (exponent of the object lost or applied twice)"
+            elif sorted(x[1] for x in gb) == sorted(x[1] for x in want_nf[0]):
+                why = "a Coulomb term enters with the wrong sign or prefactor"
+            else:
+                why = ("the Coulomb terms differ from (pr|qs) [needs spin(p)=spin(r), spin(q)=spin(s)] - (ps|qr) [needs spin(p)=spin(s), "
+                       "spin(q)=spin(r)] as bra-ket symmetric tensors of the configured Coulomb name")
+            ctx.bad(rule, fn, f"{what}: {why}; got {show(v)[:300]}", key=f"value {spins} {show(exponent)} {ret}")
+        if got_nf is not None and isinstance(got_nf, tuple) and got_nf[0]:
+            nonzero.add(spins)
+        if not ret:
+            kw = acc.attrs["kw"] if acc is not None else None
+            want_kw = {"real": True, "sym_tensors": ("x", "v") if want else ("x",), "antisym_tensors": ()}
+            ok = kw is not None and {k: (tuple(sorted(x)) if k == "sym_tensors" else x) for k, x in kw.items()} == \
+                {k: (tuple(sorted(x)) if k == "sym_tensors" else x) for k, x in want_kw.items()}
+            ctx.check(rule, fn, ok, f"{what}: Expr with the Coulomb name among sym_tensors iff a Coulomb tensor was produced",
+                      f"{what}: result is wrapped as Expr(.., {kw}), expected the assumptions {want_kw}", key=f"assumptions {spins} {show(exponent)}")
+    ctx.floor(rule, "decision table rows of expand_antisym_eri", n, 100)
+    # consistency with the block tables: non-zero exactly on the allowed ERI blocks, produced tensors in allowed Coulomb blocks
+    ctx.check(rule, fn, nonzero - {""} == set(ERI), "expansion non-zero exactly on the allowed ERI spin blocks",
+              f"the expansion is non-zero on {sorted(nonzero - {''})}, the allowed ERI blocks are {sorted(ERI)}", key="eri blocks")
+
+    # other objects are untouched; ERI without bra-ket symmetry is refused
+    def other(name, bks):
+        def build(W):
+            p, q, r, s = W.ix("pqrs")
+            base = Obj(None, "base")
+            base.attrs.update(name=name, idx=(p, q, r, s), upper=(p, q), lower=(r, s), bra_ket_sym=bks,
+                              _classes=("AntiSymmetricTensor", "SymbolicTensor"))
+            me = Obj(EC + "Obj", "self")
+            me.attrs.update(name=name, idx=(p, q, r, s), bra_ket_sym=bks, exponent=2, base=base, base_and_exponent=(base, 2),
+                            sympy=t_pow(base.term, 2), assumptions={"real": True, "sym_tensors": ("x",)})
+            return dict(self=me, return_sympy=True)
+        return evaluate(ctx, fn, build, "expand_antisym_eri", _tensor_hooks)
+    for name in ("f", "v", "t2"):
+        res = other(name, 1)
+        ok = len(res) == 1 and res[0][0].kind == "return" and res[0][0].value == t_pow(sym("base"), 2)
+        ctx.check(rule, fn, ok, f"tensor {name}: returned unchanged with its exponent",
+                  f"expand_antisym_eri changes the tensor {name}^2, which is not the antisymmetric ERI: {[repr(o)[:160] for o, _ in res][:2]}",
+                  key=f"untouched {name}")
+    for bks in (0, -1):
+        res = other("V", bks)
+        ctx.check(rule, fn, bool(res) and all(o.kind == "raise" for o, _ in res), f"ERI with bra-ket symmetry {bks} refused",
+                  f"an antisymmetric ERI with bra-ket symmetry {bks} (complex orbitals) is expanded into bra-ket symmetric Coulomb integrals",
+                  key=f"real only {bks}")
+
+
+# ---------------------------------------------------------------------------- R15d
+
+
+def _conserving(kind, b):
+    if kind == "eri":       # <pq||rs>
+        return (b[0] == b[2] and b[1] == b[3]) or (b[0] == b[3] and b[1] == b[2])
+    if kind == "coulomb":   # (pq|rs)
+        return b[0] == b[1] and b[2] == b[3]
+    if kind == "delta":
+        return b[0] == b[1]
+    if kind == "operator":
+        return True
+    if kind == "t":         # same number of alpha in both halves
+        h = len(b) // 2
+        return b[:h].count("a") == b[h:].count("a")
+    raise AnalysisError(kind)
+
+
+def r15d(ctx):
+    rule = "R15d"
+    fn = ctx.model.fn(EC + "Obj.allowed_spin_blocks")
+    AST = ("AntiSymmetricTensor", "SymbolicTensor")
+    cases = [
+        # key, tensor name, classes of the base, number of indices, oracle kind | explicit expectation
+        ("eri", "V", AST, 4, "eri"),
+        ("coulomb", "v", ("SymmetricTensor",) + AST, 4, "coulomb"),
+        ("t 2", "t1", ("Amplitude",) + AST, 2, "t"),
+        ("t 4", "t2", ("Amplitude",) + AST, 4, "t"),
+        ("t 6", "t3cc", ("Amplitude",) + AST, 6, "t"),
+        ("delta", None, ("KroneckerDelta",), 2, "delta"),
+        ("operator F", None, ("F", "AnnihilateFermion", "FermionicOperator"), 1, "operator"),
+        ("operator Fd", None, ("Fd", "CreateFermion", "FermionicOperator"), 1, "operator"),
+        ("itmd", "X", AST, 2, ("ab", "ba")),
+        ("itmd nonsym", "Xn", ("NonSymmetricTensor", "SymbolicTensor"), 3, ("aab",)),
+        ("unknown", "U", AST, 2, None),
+        ("prefactor", None, ("Rational",), 0, None),
+        ("t odd", "t2", ("Amplitude",) + AST, 3, "raise"),
+    ]
+    for key, name, classes, nidx, kind in cases:
+        def extra(W):
+            reg = Obj(None, "Intermediates()")
+            known = {}
+            for nm, bl in (("X", ("ab", "ba")), ("Xn", ("aab",))):
+                it = Obj(None, "itmd " + nm)
+                it.attrs.update(allowed_spin_blocks=bl, _identity=True)
+                known["long-" + nm] = it
+            reg.attrs.update(available=known)
+            h = _tensor_hooks(W)
+            h.update({"Intermediates": lambda sx, a, kw: reg, "longname": lambda sx, a, kw: "long-" + str(a[0].attrs["name"]),
+                      "is_t_amplitude": lambda sx, a, kw: isinstance(a[0], str) and a[0].rstrip("c").lstrip("t").isdigit() and a[0][0] == "t"})
+            return h
+
+        def build(W):
+            ix = W.ix("pqrstu"[:nidx])
+            base = Obj(None, "base")
+            base.attrs.update(name=name, idx=ix, _classes=classes, is_number=(nidx == 0 and name is None))
+            me = Obj(EC + "Obj", "self")
+            me.attrs.update(name=name, idx=ix, base=base, sympy=base, exponent=1, base_and_exponent=(base, 1),
+                            is_t_amplitude=bool(name and name.startswith("t")))
+            return dict(self=me)
+        res = evaluate(ctx, fn, build, f"Obj.allowed_spin_blocks({key})", extra)
+        if kind == "raise":
+            ctx.check(rule, fn, bool(res) and all(o.kind == "raise" for o, _ in res), "t-amplitude with an odd number of indices refused",
+                      f"a t-amplitude with 3 indices gets spin blocks: {[repr(o)[:160] for o, _ in res][:2]}", key="t odd")
+            continue
+        if len(res) != 1 or res[0][0].kind != "return":
+            ctx.bad(rule, fn, f"{key}: no single returning path: {[repr(o)[:200] for o, _ in res][:3]}", key=f"outcome {key}")
+            continue
+        v = res[0][0].value
+        if isinstance(kind, str):
+            want = sorted("".join(b) for b in itertools.product("ab", repeat=nidx) if _conserving(kind, b))
+        else:
+            want = None if kind is None else sorted(kind)
+        got = sorted(v) if isinstance(v, (tuple, list)) and all(isinstance(x, str) for x in v) else v
+        ctx.check(rule, fn, got == want, f"{key}: blocks {want}",
+                  f"allowed spin blocks of {key} ({nidx} indices) are {show(got)[:300]}; "
+                  f"{'spin conservation gives' if isinstance(kind, str) else 'expected'} {want}", key=f"blocks {key}")
+        if isinstance(v, (tuple, list)):
+            ctx.check(rule, fn, len(v) == len(set(v)), f"{key}: no duplicate block", f"{key}: duplicate spin block listed", key=f"dups {key}")
+    no = ctx.model.fn(EC + "NormalOrdered.allowed_spin_blocks")
+    for tables in ((("a", "b"),), (("a", "b"), ("a", "b")), (("a", "b"), ("a",), ("b", "a"))):
+        def build(W):
+            obs = []
+            for k, tb in enumerate(tables):
+                ob = Obj(None, f"op{k}")
+                ob.attrs.update(allowed_spin_blocks=tb)
+                obs.append(ob)
+            me = Obj(EC + "NormalOrdered", "self")
+            me.attrs.update(objects=obs)
+            return dict(self=me)
+        res = evaluate(ctx, no, build, "NormalOrdered.allowed_spin_blocks")
+        v = res[0][0].value if len(res) == 1 and res[0][0].kind == "return" else None
+        want = sorted("".join(b) for b in itertools.product(*tables))
+        ctx.check(rule, no, isinstance(v, (tuple, list)) and sorted(v) == want, f"NO of {len(tables)} operators: product of the operator blocks",
+                  f"NormalOrdered spin blocks for operator blocks {tables} are {show(v)[:200]}, expected {want}", key=f"blocks NO {len(tables)}")
+
+
+# ---------------------------------------------------------------------------- R15g
 
 
 def r15g(ctx):
-    """_has_valid_combination evaluated on 3 tensors over the index pairs (x,y),(y,z),(x,z), each
-    with two admissible spin blocks: answer == brute force, variant complete and consistent on
-    success."""
+    """_has_valid_combination on 3 tensors over the index pairs (x,y),(y,z),(x,z), each with two admissible spin
+    blocks: answer == brute force, variant complete and consistent on success."""
     rule = "R15g"
-    import itertools
-    from ..abseval import Interp, Rec
     fn = ctx.model.fn(SO + "_has_valid_combination")
-    idx = {n: Rec("Index", name=n) for n in "xyz"}
     supports = [("x", "y"), ("y", "z"), ("x", "z")]
     blocks = ["aa", "ab", "ba", "bb"]
     pairs = [(b1, b2) for b1 in blocks for b2 in blocks if b1 != b2]
-    n = 0
-    bad = 0
+    W = World()
+    sx = Symex(ctx.model, inline=lambda q: True, what="_has_valid_combination", max_paths=8)
+    n = bad = 0
     for choice in itertools.product(pairs, repeat=3):
-        maps = []
-        for sup, bl in zip(supports, choice):
-            lst = []
-            for b in bl:
-                m = {"a": set(), "b": set()}
-                for sp, name in zip(b, sup):
-                    m[sp].add(idx[name])
-                lst.append(m)
-            maps.append(lst)
-        variant = {"a": set(), "b": set()}
+        box = {}
 
-        def rec(i, node, a, kw):
-            k, v = Interp({"_has_valid_combination": rec}, what="_has_valid_combination").call(
-                fn, {"tensor_idx_maps": a[0], "current_pos": a[1], "variant": a[2]})
-            if k != "return":
-                raise AnalysisError(f"R15g: recursion raised {v}")
-            return v
-        kind, val = Interp({"_has_valid_combination": rec}, what="_has_valid_combination").call(
-            fn, {"tensor_idx_maps": maps, "current_pos": 0, "variant": variant})
+        def make():
+            maps = []
+            for sup, bl in zip(supports, choice):
+                lst = []
+                for b in bl:
+                    m = {"a": set(), "b": set()}
+                    for sp, name in zip(b, sup):
+                        m[sp].add(W.idx(name))
+                    lst.append(m)
+                maps.append(lst)
+            box["variant"] = {"a": set(), "b": set()}
+            return dict(tensor_idx_maps=maps, current_pos=0, variant=box["variant"])
+        outs = sx.run(fn, make)
         n += 1
-        # oracle
-        want = False
-        for sel in itertools.product(range(2), repeat=3):
-            spin = {}
-            ok = True
-            for t, k in enumerate(sel):
-                for sp in "ab":
-                    for i in maps[t][k][sp]:
-                        if spin.setdefault(i.name, sp) != sp:
-                            ok = False
-            if ok:
-                want = True
-                break
-        good = kind == "return" and bool(val) == want
+        want = any(all(len({sp for t, k in enumerate(sel) for sp, nm in zip(choice[t][k], supports[t]) if nm == name}) <= 1
+                       for name in "xyz") for sel in itertools.product(range(2), repeat=3))
+        variant = box["variant"]
+        good = len(outs) == 1 and outs[0].kind == "return" and isinstance(outs[0].value, bool) and outs[0].value == want
         if good and want:
             good = not (variant["a"] & variant["b"]) and len(variant["a"] | variant["b"]) == 3
         if not good:
             bad += 1
             if bad <= 3:
-                ctx.bad(rule, fn, f"blocks {choice}: search answers {val} (assignment {sorted(i.name for i in variant['a'])}|"
-                        f"{sorted(i.name for i in variant['b'])}), a consistent spin assignment "
+                ctx.bad(rule, fn, f"blocks {choice}: search answers {[repr(o)[:80] for o in outs]} (assignment "
+                        f"{sorted(i.name for i in variant['a'])}|{sorted(i.name for i in variant['b'])}), a consistent spin assignment "
                         f"{'exists' if want else 'does not exist'}: choices that dead-end are not reverted correctly",
                         key=f"search {choice}")
         else:
@@ -461,18 +763,105 @@ def r15g(ctx):
     ctx.floor(rule, "search instances", n, 1000)
 
 
+# ---------------------------------------------------------------------------- R15h
+
+
+def r15h(ctx):
+    """allowed_spin_blocks(expr, target) against brute force (expressions whose indexed objects all have flip-closed tables)."""
+    rule = "R15h"
+    fn = ctx.model.fn(SO + "allowed_spin_blocks")
+    X = None
+    exprs = {
+        "t2": ("ijab", [[("V", "ijab", ERI), ("c", "", X)]]),
+        "chain": ("ia", [[("d", "ij", DELTA), ("d", "jb", DELTA), ("d", "ba", DELTA)]]),
+        "two terms": ("ijab", [[("d", "ia", DELTA), ("d", "jb", DELTA)], [("d", "ib", DELTA), ("d", "ja", DELTA)]]),
+        "backtrack": ("ialdme", [[("t3", "ijkabc", t_blocks(3)), ("V", "jlbd", ERI), ("V", "kmce", ERI)]]),
+        "backtrack deltas": ("ialdme", [[("t3", "ijkabc", t_blocks(3)), ("d", "jl", DELTA), ("d", "bd", DELTA), ("d", "km", DELTA),
+                                        ("d", "ce", DELTA)]]),
+        "t2 V": ("ia", [[("t2", "ijab", t_blocks(2)), ("V", "jkbc", ERI), ("t1", "kc", t_blocks(1))]]),
+        "scalar": ("", [[("V", "ijab", ERI), ("t2", "ijab", t_blocks(2))]]),
+    }
+    for key, (target, terms) in exprs.items():
+        def build(W):
+            ts = [W.term(f"{key}.{k}", [(lab, W.ix(ix), bl) for lab, ix, bl in objs], W.ix(target)) for k, objs in enumerate(terms)]
+            return dict(expr=W.expr("expr", ts, {"real": True}, None), target_idx=target)
+        res = evaluate(ctx, fn, build, f"allowed_spin_blocks({key})")
+        W = World()
+        want = set()
+        for objs in terms:
+            mobjs = [(lab, W.ix(ix), bl) for lab, ix, bl in objs]
+            for s in assignments([i for _, ix, _ in mobjs for i in ix], mobjs, {}):
+                want.add("".join(s[n] for n in target))
+        want = sorted(want)
+        v = res[0][0].value if len(res) == 1 and res[0][0].kind == "return" else None
+        got = sorted(v) if isinstance(v, (tuple, list)) else None
+        ctx.check(rule, fn, got == want and len(v) == len(set(v)), f"{key}: the {len(want)} non-zero spin blocks of the targets {target or '-'}",
+                  f"allowed_spin_blocks({key}; targets {target}): reported {got if got is not None else [repr(o)[:200] for o, _ in res][:2]}; "
+                  f"a consistent spin assignment of all indices exists exactly for {want}; "
+                  f"not reported: {sorted(set(want) - set(got or ()))[:6]}, wrongly reported: {sorted(set(got or ()) - set(want))[:6]}",
+                  key=f"blocks {key}")
+    # guards
+
+    def guard(key, fact, reason, mutate):
+        def build(W):
+            t = W.term("g", [("d", W.ix("ij"), DELTA), ("d", W.ix("ja"), DELTA)], W.ix("ia"))
+            a = dict(expr=W.expr("expr", [t], {"real": True}, None), target_idx="ia")
+            mutate(W, a)
+            return a
+        res = evaluate(ctx, fn, build, f"allowed_spin_blocks guard {key}")
+        ctx.check(rule, fn, bool(res) and all(o.kind == "raise" for o, _ in res), fact,
+                  f"{reason}: {[repr(o)[:160] for o, _ in res][:2]}", key=f"guard {key}")
+    guard("expr type", "input that is no Expr refused", "allowed_spin_blocks accepts an input that is not an Expr", lambda W, a: a.update(expr="V"))
+    guard("term target", "terms with other target indices refused", "allowed_spin_blocks accepts a term whose target indices differ from the requested ones",
+          lambda W, a: a["expr"].terms[0].attrs.update(target=tuple(sorted(W.ix("ja"), key=KEY))))
+
+
+def r15h_itmd(ctx):
+    rule = "R15h"
+    fn = ctx.model.fn("intermediates:RegisteredIntermediate.allowed_spin_blocks")
+
+    def extra(W):
+        def expand_itmd(sx, a, kw):
+            b = {**dict(zip(("self", "indices", "return_sympy", "fully_expand"), a)), **kw}
+            W.log.append(("expand_itmd", b))
+            W.definition = W.expr("definition", [], {"real": True}, None)
+            return W.definition
+
+        def blocks(sx, a, kw):
+            b = {**dict(zip(("expr", "target_idx"), a)), **kw}
+            W.log.append(("allowed_spin_blocks", b))
+            return ("marker",)
+        return {"expand_itmd": expand_itmd, "allowed_spin_blocks": blocks, "expand": lambda sx, a, kw: a[0]}
+
+    def build(W):
+        me = Obj("intermediates:RegisteredIntermediate", "self")
+        me.attrs.update(default_idx="ijab", name="X", order=2)
+        return dict(self=me)
+    res = evaluate(ctx, fn, build, "RegisteredIntermediate.allowed_spin_blocks", extra)
+    ok = len(res) == 1 and res[0][0].kind == "return" and res[0][0].value == ("marker",)
+    if ok:
+        W = res[0][1]
+        ex = [b for k, b in W.log if k == "expand_itmd"]
+        bl = [b for k, b in W.log if k == "allowed_spin_blocks"]
+        ok = len(ex) == 1 and len(bl) == 1 and ex[0].get("indices") == "ijab" and bl[0].get("expr") is W.definition \
+            and bl[0].get("target_idx") == "ijab"
+    ctx.check(rule, fn, ok, "blocks of an intermediate = blocks of its definition on the default indices, targets = default indices",
+              f"RegisteredIntermediate.allowed_spin_blocks is not allowed_spin_blocks(expand_itmd(default_idx), default_idx): "
+              f"{[repr(o)[:200] for o, _ in res][:2]} calls {[(k, {x: (getattr(y, 'name', y)) for x, y in b.items() if x != 'self'}) for k, b in (res[0][1].log if res else [])]}",
+              key="itmd blocks")
+
+
 def run(ctx):
     if ctx.want("R15g"):
         r15g(ctx)
-    if ctx.want("R15a"):
-        r15a(ctx, modules=None if ctx.tier == "thorough" else {"spatial_orbitals"})
-    if ctx.want("R15b"):
-        r15b(ctx, modules=None if ctx.tier == "thorough" else {"spatial_orbitals"})
+    if ctx.want("R15f") or ctx.want("R15a") or ctx.want("R15b"):
+        r15f(ctx)
     if ctx.want("R15c"):
         r15c(ctx)
     if ctx.want("R15d"):
         r15d(ctx)
     if ctx.want("R15e"):
         r15e(ctx)
-    if ctx.want("R15f"):
-        r15f(ctx)
+    if ctx.want("R15h"):
+        r15h(ctx)
+        r15h_itmd(ctx)
